@@ -523,7 +523,8 @@ def eval_dynamics(ctx, specs, props, with_model=True, c17=False):
         tr, b = sim.simulate(spec)
         traces.append((spec, tr, b))
         if tr['build_error'] is None and with_model and ctx.driver.available:
-            lines.append(sim.hist_line(spec, tr))
+            # declarations -> assembly -> simulation all inside the model
+            lines.append(sim.pipe_line(spec, tr, b))
     answers = ctx.driver.ask(lines) if lines else []
     k = 0
     for spec, tr, b in traces:
@@ -552,9 +553,9 @@ def eval_dynamics(ctx, specs, props, with_model=True, c17=False):
             for msg, det in viol[:1]:
                 ctx.violation(case, {'why': msg, **det, 'property': pid})
         if with_model and ctx.driver.available:
-            st, recs = sim.parse_hist(answers[k])
+            cm, st, recs = sim.parse_pipe(answers[k], spec, tr)
             k += 1
-            diff = sim.compare_hist(tr, st, recs)
+            diff = cm or sim.compare_hist(tr, st, recs)
             if diff is not None:
                 why = near_threshold(spec, tr)
                 if why is not None:
